@@ -29,6 +29,10 @@ pub enum ProofError {
     #[error("Existance proof missing in operation")]
     ExistanceProofMissing,
 
+    /// Non-existance proof missing in operation
+    #[error("Non-existance proof missing in operation")]
+    NonExistanceProofMissing,
+
     /// Uneven proofs and keys lengths
     #[error("Uneven proofs ({0}) and keys ({1}) lenghts")]
     UnevenProofsAndKeysLengths(usize, usize),
@@ -88,6 +92,18 @@ impl CommitmentOp {
             _ => None,
         }
     }
+
+    /// Checks if the operation carries a non-existance proof.
+    fn has_non_existence_proof(&self) -> bool {
+        match self.proof.proof.as_ref() {
+            Some(Proof::Nonexist(_)) => true,
+            Some(Proof::Batch(batch)) => batch
+                .entries
+                .iter()
+                .any(|entry| matches!(entry.proof, Some(ics23::batch_entry::Proof::Nonexist(_)))),
+            _ => false,
+        }
+    }
 }
 
 /// A chain of proofs that is used to verify a leaf value in multiple nested merkle trees.
@@ -127,8 +143,31 @@ impl ProofChain {
         keys: impl IntoIterator<Item = impl AsRef<[u8]>>,
         leaf: impl AsRef<[u8]>,
     ) -> Result<(), ProofError> {
-        let root = root.as_ref();
-        let mut current_leaf = leaf.as_ref();
+        self.verify(root.as_ref(), keys, Some(leaf.as_ref()))
+    }
+
+    /// Verifies that a key doesn't exist in the lowermost of the nested merkle trees.
+    ///
+    /// The first proof must prove that the first key is absent from the lowermost tree.
+    /// The root of that tree, and of each following one, is then proven up to the expected
+    /// uppermost root in the same way as in [`ProofChain::verify_membership`].
+    pub fn verify_non_membership(
+        &self,
+        root: impl AsRef<[u8]>,
+        keys: impl IntoIterator<Item = impl AsRef<[u8]>>,
+    ) -> Result<(), ProofError> {
+        self.verify(root.as_ref(), keys, None)
+    }
+
+    /// Verifies the chain of proofs up to the `root`. If `leaf` is `None`, the first
+    /// proof has to be a non-existance proof of the first key.
+    fn verify(
+        &self,
+        root: &[u8],
+        keys: impl IntoIterator<Item = impl AsRef<[u8]>>,
+        leaf: Option<&[u8]>,
+    ) -> Result<(), ProofError> {
+        let mut current_leaf = leaf;
         let mut current_idx = 0;
         // fuse the iterator to make sure it doesn't do any fancy logic
         // to obey the checks
@@ -148,8 +187,12 @@ impl ProofChain {
                 ));
             }
 
-            if proof.get_existence_proof(key).is_none() {
-                return Err(ProofError::ExistanceProofMissing);
+            if current_leaf.is_some() {
+                if proof.get_existence_proof(key).is_none() {
+                    return Err(ProofError::ExistanceProofMissing);
+                }
+            } else if !proof.has_non_existence_proof() {
+                return Err(ProofError::NonExistanceProofMissing);
             }
 
             // current proof must prove current leaf to the root of the current tree,
@@ -171,17 +214,26 @@ impl ProofChain {
                 root
             };
 
-            if !ics23::verify_membership::<Sha256Provider>(
-                &proof.proof,
-                &proof.spec,
-                &current_root.to_vec(), // removing to_vec needs fix upstream
-                &proof.key,
-                current_leaf,
-            ) {
+            let verified = match current_leaf {
+                Some(leaf) => ics23::verify_membership::<Sha256Provider>(
+                    &proof.proof,
+                    &proof.spec,
+                    &current_root.to_vec(), // removing to_vec needs fix upstream
+                    &proof.key,
+                    leaf,
+                ),
+                None => ics23::verify_non_membership::<Sha256Provider>(
+                    &proof.proof,
+                    &proof.spec,
+                    &current_root.to_vec(),
+                    &proof.key,
+                ),
+            };
+            if !verified {
                 return Err(ProofError::RootMismatch);
             }
 
-            current_leaf = current_root;
+            current_leaf = Some(current_root);
             current_idx += 1;
         }
 
